@@ -11,7 +11,7 @@ import sys, os, json, subprocess, shutil, re, time
 
 VERIF = os.path.dirname(os.path.dirname(os.path.abspath(__file__)))
 ENV = dict(os.environ, GOFLAGS="-mod=mod", GOPROXY="off", GOSUMDB="off", GOTOOLCHAIN="local")
-NEED_OVERLAY = {".", "api/rest", "api/rest/client", "cmdutils", "test", "pintracker", "cmd/ipfs-cluster-ctl", "cmd/ipfs-cluster-service", "cmd/ipfs-cluster-follow"}
+NEED_OVERLAY = {".", "rpcutil/policygen", "api/rest", "api/rest/client", "cmdutils", "test", "pintracker", "cmd/ipfs-cluster-ctl", "cmd/ipfs-cluster-service", "cmd/ipfs-cluster-follow"}
 
 
 def sh(cmd, cwd, timeout=1800, shell=False):
